@@ -397,6 +397,13 @@ func (e *Engine) opRegType(c *cursor) *Violation {
 		return nil
 	}
 	k := pending[0] // registration order is part of the plan (IDs are assigned densely)
+	if e.locked() {
+		// the refused attempt may be for any pending type; what is registered once unlocked is again the next in order
+		k = pending[c.n(len(pending))]
+		if e.P.Types[k].IsRelation() {
+			e.St.Probes["relation-type-registration-refused-under-lock"]++
+		}
+	}
 	nBefore := len(ecs.ComponentIDs(e.S.W))
 	msg, panicked := e.S.RegisterType(k)
 	e.St.Ops["regtype"]++
